@@ -1140,7 +1140,7 @@ func runDispatch(ops []string) (ans []string, oracle []string) {
 
 var dispKeys = []string{"k", "user", rux.CTXRecoverResult, rux.CTXCurrentRouteName, "p"}
 var dispVals = []string{"v", "", "evil", "x y"}
-var dispCodes = []int{200, 201, 404, 500, 500, 302, 0, -1}
+var dispCodes = []int{200, 201, 404, 500, 500, 302, 0, -1, 204, 304}
 var dispPVals = []string{"s." + hx("boom"), "s.-", "e." + hx("err1"), "i.7", "i.0", "ri", "rn"}
 
 type dgen struct {
